@@ -294,12 +294,30 @@ def has_fact(facts: Iterable[str], pattern: str) -> bool:
     return any(rx.fullmatch(f) for f in facts)
 
 
+def _resym(fact: str) -> str:
+    """A table fact about a symmetric method call in the canonical operand order of norm.facts."""
+    m = re.fullmatch(r"(truthy|falsy)\((.*)\)", fact)
+    if not m:
+        return fact
+    from .norm import SYMMETRIC_METHODS, facts as _nf
+
+    try:
+        e = ast.parse(m.group(2), mode="eval").body
+    except SyntaxError:
+        return fact
+    if isinstance(e, ast.Call) and isinstance(e.func, ast.Attribute) and e.func.attr in SYMMETRIC_METHODS and len(e.args) == 1:
+        fs = _nf(e, m.group(1) == "truthy")
+        if len(fs) == 1:
+            return fs[0]
+    return fact
+
+
 def need_facts(need: str) -> list[str]:
     """A need is a Python condition (canonicalised like a guard) or `re:<regex>`."""
     if need.startswith("re:") or need.startswith("exhausted("):
         return [need]
     if need.startswith("raw:"):
-        return ["raw:" + need[4:]]
+        return ["raw:" + _resym(need[4:])]
     from .norm import facts as _facts
 
     e = ast.parse(need, mode="eval").body
